@@ -485,7 +485,22 @@ func (c *Ctx) mintCases(s *jwtSetup, t0 time.Time) {
 		var idx []string
 		for j := c.rng.Intn(3); j > 0; j-- {
 			v := c.pick("idx-a", "idx-b", "")
-			a.AuthnStatements = append(a.AuthnStatements, saml.AuthnStatement{SessionIndex: v})
+			st := saml.AuthnStatement{SessionIndex: v}
+			// what the IdP says about *its* session (long after, just before, long before the SP's own lifetime ends) does not
+			// lengthen the SP's session: the token is honoured no longer than the session lifetime
+			switch c.rng.Intn(4) {
+			case 0:
+				t := t0.Add(8 * time.Hour)
+				st.SessionNotOnOrAfter = &t
+				c.count("c16-idp-session-end", "far-after-lifetime")
+			case 1:
+				t := t0.Add(s.maxAge + 90*time.Second)
+				st.SessionNotOnOrAfter = &t
+				c.count("c16-idp-session-end", "just-after-lifetime")
+			default:
+				c.count("c16-idp-session-end", "absent")
+			}
+			a.AuthnStatements = append(a.AuthnStatements, st)
 			idx = append(idx, v)
 		}
 		toks = append(toks, encStrList(idx)...)
